@@ -5,17 +5,22 @@ From Coq Require Import NArith.
 From PV Require Import C01.FS.
 
 (* which variable the commit/cleanup decision of a function reads, and whether it is deferred *)
-Inductive key := KFlag | KErr | KNone.
-Inductive action := ACommit | ACleanup | ANothing.
+Inductive key := KFlag | KErr | KNone | KAlways.
+Inductive action := ACommit | ACleanup | ANothing | ACommitKeep.
 (* what runs after the body, given how the body ended:
    KFlag:  defer func() { if !ok { cleanup; return }; commit }()   with `ok = true` the last statement
            of the body: commit iff the body returned nil; cleanup otherwise, also on panic.
    KErr:   defer func() { if err != nil { cleanup; return }; commit }(): the named result err is non-nil
            only when the body RETURNED an error; when the body panics err is still nil: commit.
    KNone:  no defer:  if err := body(); err != nil { return cleanup(err) }; return commit()
-           nothing runs when the body panics. *)
+           nothing runs when the body panics.
+   KAlways: defer func() { err = finish(…, err) }() where `err` is a LOCAL variable that shadows the named
+           result (declared by `:=` in a nested block together with the staging file) and is nil when
+           the defer is registered: the commit branch runs however the body ended, and its outcome is
+           assigned to the local: the function returns what the body returned (pdfcpu.WriteContext). *)
 Definition decide (k : key) (r : ctl) : action :=
   match k, r with
+  | KAlways, _ => ACommitKeep
   | _, COk => ACommit
   | _, CErr => ACleanup
   | KFlag, CPanic => ACleanup
@@ -156,6 +161,7 @@ Definition api_file (k : key) (ins : list positive) (inF outF : option positive)
                                | ACommit => commit s w
                                | ACleanup => (CErr, cleanup s w)
                                | ANothing => (r, w)
+                               | ACommitKeep => (r, snd (commit s w))
                                end) w
     end
   end.
@@ -225,6 +231,7 @@ Definition pdf_staged (k : key) (input : option positive) (path : positive)
                                | ACommit => finish_staged_file path t false input w
                                | ACleanup => finish_staged_file path t true input w
                                | ANothing => (r, w)
+                               | ACommitKeep => (r, snd (finish_staged_file path t false input w))
                                end) w
     end
   end.
@@ -255,13 +262,16 @@ Definition plan_of (n : option nat) : plan := match n with Some k => single k | 
 Definition fs_of_list (l : list (positive * file)) : gmap positive file := list_to_map l.
 Definition fs_to_list (m : gmap positive file) : list (positive * file) := map_to_list m.
 
+(* the temp-name supply of the extracted runs: unused, and never one of the harness's fixed names (< 16) *)
+Definition fresh_hi (m : gmap positive file) : positive := Pos.max 16%positive (fresh_path m).
+
 Definition run_api (n : option nat) (k : key) (ins : list positive) (inF outF : option positive)
            (init : list (positive * file)) (chunks : list bytes) (fin : ctl) : ctl * world :=
-  api_file (plan_of n) fresh_path k ins inF outF chunks fin (W (fs_of_list init) 0 []).
+  api_file (plan_of n) fresh_hi k ins inF outF chunks fin (W (fs_of_list init) 0 []).
 
 Definition run_pdf (n : option nat) (k : key) (input : option positive) (path : positive)
            (init : list (positive * file)) (chunks : list bytes) (fin : ctl) : ctl * world :=
-  pdf_staged (plan_of n) fresh_path k input path chunks fin (W (fs_of_list init) 0 []).
+  pdf_staged (plan_of n) fresh_hi k input path chunks fin (W (fs_of_list init) 0 []).
 Definition run_newfile (n : option nat) (path : positive)
            (init : list (positive * file)) (chunks : list bytes) (fin : ctl) : ctl * world :=
   write_new_file (plan_of n) path chunks fin (W (fs_of_list init) 0 []).
